@@ -677,11 +677,11 @@ impl<'a> Evaluator<'a> {
                 Ok(Val::Sym(subst_quote(&q, _env)))
             }
             // the generators' own `error!(Kind, "fmt", ..)`: a GeneratorError of that kind
-            "error" => {
+            "error" | "grammar_error" => {
                 let kind = m.tokens.clone().into_iter().next().map(|t| t.to_string()).unwrap_or_default();
                 let mut f = BTreeMap::new();
                 f.insert("kind".to_string(), Val::ctor(&kind));
-                Ok(Val::Ctor("GeneratorError".into(), vec![], f))
+                Ok(Val::Ctor(if name == "error" { "GeneratorError" } else { "GrammarError" }.into(), vec![], f))
             }
             "format_ident" | "format" => {
                 let args = crate::model::macro_args(m).ok_or("cannot parse macro args")?;
